@@ -15,6 +15,10 @@ def isNl (g : Gr) : Bool := g == ['\n']
 /-- `total_lines()`: number of '\n' *characters* in the buffer, plus one. -/
 def totalLines (gs : List Gr) : Nat := (gs.flatten.count '\n') + 1
 
+/-- `last_line_number()`: zero-based number of the last line (a final newline does not start a line). -/
+def lastLineNumber (gs : List Gr) : Nat :=
+  if totalLines gs > 1 ∧ gs.flatten.getLast? = some '\n' then totalLines gs - 2 else totalLines gs - 1
+
 /-- Scan graphemes starting at absolute index `pos` for the first newline grapheme:
 index just after it, and what follows. (`while let Some(idx) = idx_iter.next()` in `line_bounds`.) -/
 def afterNl : List Gr → Nat → Option (Nat × List Gr)
